@@ -584,6 +584,8 @@ type runner struct {
 	strays []strayFile // files put under blobs/ that are no content of the store
 	// watchdog confirmation run / case without verdict (timeout not confirmed)
 	confirming, dropped bool
+	// a descriptor that does not describe the stored content was passed (outside the property)
+	unjudged bool
 }
 
 const gcWatchdog = 300 * time.Second
@@ -616,6 +618,9 @@ type strayFile struct {
 }
 
 func (r *runner) fail(sig, msg string) {
+	if r.unjudged && sig != "gc-hang" {
+		return
+	}
 	if r.failed[sig] {
 		return
 	}
@@ -750,6 +755,21 @@ func (r *runner) exec(op string) string {
 		return "ok"
 	case 'C':
 		return r.checkpoint()
+	case 'W', 'M': // Tag with a descriptor of the wrong size / another media type: not judged
+		f := strings.Split(arg, ":")
+		k, _ := strconv.Atoi(f[0])
+		t, _ := strconv.Atoi(f[1])
+		d := g.Nodes[k].Desc
+		if op[0] == 'W' {
+			d.Size += 1 + int64(t)
+		} else if d.MediaType == "application/octet-stream" {
+			d.MediaType = ocispec.MediaTypeImageManifest
+		} else {
+			d.MediaType = "application/octet-stream"
+		}
+		r.unjudged = true
+		r.synced = false
+		return errTok(r.store.Tag(ctx, d, tagPool[t]))
 	case 'I': // node bytes written as a blob file behind the store's back
 		k, _ := strconv.Atoi(arg)
 		n := g.Nodes[k]
@@ -986,7 +1006,9 @@ func (r *runner) do(op string) {
 	r.h.Ops = append(r.h.Ops, op) // before exec: a replay written by the oracle includes the failing check point
 	res := r.exec(op)
 	r.out = append(r.out, res)
-	if op[0] == 'X' {
+	if op[0] == 'W' || op[0] == 'M' {
+		run.Count("unjudged:tag-with-inconsistent-descriptor(" + op[:1] + ")")
+	} else if op[0] == 'X' {
 		run.Count("op:X" + op[1:2])
 	} else if op[0] != 'C' {
 		run.Count("op:" + op[:1] + ":" + strings.SplitN(res, ":", 2)[0])
@@ -1114,6 +1136,10 @@ func (r *runner) generate(rnd *common.Rand, nops int) {
 		case c < 90: // reopen read-write (only when index.json is current)
 			if r.synced {
 				r.do("R")
+			}
+		case c < 91 && rnd.Chance(1, 6): // caller inconsistency (not judged, must not crash or hang)
+			if p, ok := pickPresent(); ok {
+				r.do(fmt.Sprintf("%s%d:%d", common.Pick(rnd, []string{"W", "M"}), p, rnd.Intn(len(tagPool))))
 			}
 		case c < 92: // a layer appears in blobs/ without Push
 			var ls []int
@@ -1371,7 +1397,7 @@ var coverageFloor = []string{
 	"op:V:invalidref", "op:D:ok", "op:D:notfound", "op:G:ok", "op:S:ok", "op:R:ok", "op:I:ok",
 	"op:Xv", "op:Xi", "op:Xa", "op:Xf", "tag:foreign-digest-reference", "tag:invalid-utf8-reference",
 	"gc:with-untagged-subject-chains", "delete:autogc-with-stored-referrer",
-	"tarfs:format0", "tarfs:format1", "tarfs:format2",
+	"tarfs:format0", "tarfs:format1", "tarfs:format2", "unjudged:tag-with-inconsistent-descriptor",
 }
 
 func main() {
